@@ -20,23 +20,7 @@ impl vstd::std_specs::cmp::PartialEqSpecImpl for Action {
     open spec fn eq_spec(&self, other: &Self) -> bool { *self == *other }
 }
 
-// the documented per-path table (C18), as a definition over equality of (BLAKE3, entry type) pairs
-pub open spec fn fp_eq(x: Option<Fingerprint>, y: Option<Fingerprint>) -> bool {
-    x is Some && y is Some && x->Some_0.blake3 == y->Some_0.blake3 && x->Some_0.ftype == y->Some_0.ftype
-}
-pub open spec fn table(a: Option<Fingerprint>, b: Option<Fingerprint>, z: Option<Fingerprint>) -> Action {
-    if a is None && b is None { Action::Noop }
-    else if a is Some && b is Some {
-        if fp_eq(a, b) { if fp_eq(a, z) { Action::Noop } else { Action::ConvergeIdentical } }
-        else if !fp_eq(a, z) && fp_eq(b, z) { Action::PropagateAtoB }
-        else if fp_eq(a, z) && !fp_eq(b, z) { Action::PropagateBtoA }
-        else { Action::Conflict(ConflictKind::BothChanged) }
-    } else if a is Some {
-        if z is None { Action::PropagateAtoB } else if fp_eq(a, z) { Action::DeleteA } else { Action::Conflict(ConflictKind::DeleteVsModify) }
-    } else {
-        if z is None { Action::PropagateBtoA } else if fp_eq(b, z) { Action::DeleteB } else { Action::Conflict(ConflictKind::DeleteVsModify) }
-    }
-}
+//@include table_spec.rs
 // `reconcile_path` == table is proved by Kani on the real function (harness c18_reconcile_path_is_the_table,
 // complete: loop-free, full-domain); the Verus caller uses the same contract text (cross-back-end modularity).
 #[verifier::external_body]
